@@ -63,6 +63,7 @@ def cases(draw, max_n=40, mode=None):
         "late": draw(st.booleans()),
         # timezone-aware timestamps: the buckets are those of the timestamps' own wall clock, labels keep the offset
         "tzoff": draw(st.sampled_from(TZOFFS)),
+        "tf_form": draw(st.sampled_from(("str", "str", "lower", "enum"))),  # how the timeframe is spelled to the library
     }
 
 
@@ -78,6 +79,13 @@ def drive(case):
     mode = case.get("mode", "manager")
     tz = case.get("tzoff")
     mk_candles = lambda rr_: _mk(rr_, tz)  # noqa: E731
+    name = tf  # the upper-case string names the Hexital manager whatever the spelling given
+    if case.get("tf_form") == "lower":
+        tf = tf.lower()
+    elif case.get("tf_form") == "enum":
+        from hexital import TimeFrame
+
+        tf = next((m for m in TimeFrame if m.value == tf.upper()), tf)
     if mode == "manager":
         obj = CandleManager(mk_candles(rows[:pre]), timeframe=tf)
         get = lambda: obj.candles  # noqa: E731
@@ -87,15 +95,15 @@ def drive(case):
         get = lambda: obj.candles  # noqa: E731
         collapse = obj.candle_manager.collapse_candles
     else:
-        sib = [t for t in dict.fromkeys(case.get("siblings", [])) if t.upper() != tf.upper()]
+        sib = [t for t in dict.fromkeys(case.get("siblings", [])) if t.upper() != name.upper()]
         members = [HighLowAverage(timeframe=t) for t in [tf] + sib]
         if case.get("late"):  # registered in one add_indicator call on a Hexital that already holds the candles
             obj = Hexital("c03", mk_candles(rows[:pre]), [])
             obj.add_indicator(members)
         else:
             obj = Hexital("c03", mk_candles(rows[:pre]), members)
-        get = lambda: [snap(obj.candles(t.upper()), readings=False) for t in [tf] + sib]  # noqa: E731
-        collapse = obj._candles[tf.upper()].collapse_candles
+        get = lambda: [snap(obj.candles(t.upper()), readings=False) for t in [name] + sib]  # noqa: E731
+        collapse = obj._candles[name.upper()].collapse_candles
     calls = 0
     for a, b in split_chunks(len(rest), case.get("chunks", [])):
         obj.append(mk_candles(rest[a:b]))
@@ -104,7 +112,7 @@ def drive(case):
         collapse()
     if mode == "hexital":
         got = get()
-        drive.offsets = utc_offsets([c for t in [tf] + sib for c in obj.candles(t.upper())])
+        drive.offsets = utc_offsets([c for t in [name] + sib for c in obj.candles(t.upper())])
         return got[0], calls, dict(zip(sib, got[1:]))
     drive.offsets = utc_offsets(get())
     return snap(get(), readings=False), calls, {}
